@@ -21,6 +21,7 @@ let class_name c = match int_of_n c with
   | 5 -> "C14-meta-key-unchecked-int"
   | 6 -> "C14-int-from-str-range"
   | 7 -> "C14-int-as-negative-truncates"
+  | 8 -> "C14-mint-duplicate-policy-dropped"
   | _ -> "-"
 let show_verdict = function Holds -> "holds" | NA -> "na" | Fails c -> "fails:" ^ class_name c
 
@@ -78,8 +79,29 @@ let rec mint_ops = function
   | op :: k :: z :: rest -> (if op = "a" then MAdd (n_of_string k, z_of_string z) else MSet (n_of_string k, z_of_string z)) :: mint_ops rest
   | _ -> []
 let show_flags l = if l = [] then "-" else String.concat "" (List.map bit l)
-let show_mint_entry = function Some (z, bs) -> string_of_z z ^ ":" ^ hex_of_bytes bs | None -> "~"
-let parse_mint_entry s = if s = "~" then None else let (z, b) = split1 ':' s in Some (z_of_string z, (if b = "panic" then [] else bytes_of_hex b))
+let show_mint_entry = function
+  | Some (((z, bs), pos), neg) -> Printf.sprintf "%s:%s:%s:%s" (string_of_z z) (hex_of_bytes bs) (string_of_n pos) (string_of_n neg)
+  | None -> "~"
+let parse_mint_entry s = if s = "~" then None else
+    match split ':' s with
+    | [z; b; pos; neg] -> Some (((z_of_string z, (if b = "panic" then [] else bytes_of_hex b)), n_of_string pos), n_of_string neg)
+    | _ -> failwith "mint entry"
+(* mintv: <n entries> then per entry: <policy hex> <n assets> (<name hex> <z>)* ; assets go through MintAssets::insert *)
+let parse_mintv (toks : string list) : (n list * (n list * z) list) list =
+  let a = Array.of_list toks in
+  let pos = ref 0 in
+  let next () = let x = a.(!pos) in incr pos; x in
+  let ne = int_of_string (next ()) in
+  let rec rep k f = if k <= 0 then [] else let x = f () in x :: rep (k - 1) f in
+  let entries = rep ne (fun () ->
+      let p = bytes_of_hex (next ()) in
+      let na = int_of_string (next ()) in
+      let assets = List.fold_left (fun acc (n, z) -> am_insert name_cmp n z acc) mint_assets_new
+          (rep na (fun () -> let n = bytes_of_hex (next ()) in let z = z_of_string (next ()) in (n, z))) in
+      (p, assets)) in
+  List.fold_left (fun m (p, a) -> mint_insert p a m) mint_new entries
+let show_ma (m : (n list * (n list * n) list) list) : string = show_value { coin = n_of_string "0"; multiasset_of = Some m }
+let parse_ma (s : string) = match (parse_value s).multiasset_of with Some m -> m | None -> []
 let parse_flags s = if s = "-" then [] else List.init (String.length s) (fun i -> s.[i] = '1')
 
 let () = run_driver (fun toks impl ->
@@ -125,6 +147,11 @@ let () = run_driver (fun toks impl ->
          | "ok" :: fl :: es when List.length es = 4 -> judge_mint ops (parse_flags fl, Ok (List.map parse_mint_entry es))
          | ["err"; fl] -> judge_mint ops (parse_flags fl, Err)
          | _ -> Fails cls_none))
+  | "mintv" :: rest ->
+    let m = parse_mintv rest in
+    let (p, n) = model_mintv m in
+    (Printf.sprintf "ok %s %s" (show_ma p) (show_ma n),
+     verdict (fun () -> match impl with ["ok"; p; n] -> judge_mintv m (parse_ma p, parse_ma n) | _ -> Fails cls_none))
   | ["biz"; z] ->
     let z = z_of_string z in
     let o = model_biz z in
